@@ -3438,6 +3438,23 @@ impl GlobalInferenceCtx<'_> {
                                             range: assign_body.range,
                                             help: None,
                                         });
+                                    } else if *dest_ty != Ty::Unknown
+                                        && *value_ty != Ty::Unknown
+                                        && !output_ty.max_ty.can_fit_into(&dest_ty)
+                                        && !dest_ty.is_weak_replaceable_by(&output_ty.max_ty)
+                                    {
+                                        // `a += b` stores the result back into `a`,
+                                        // so just like in `a = a + b` the result has to fit into `a`
+                                        self.diagnostics.push(TyDiagnostic {
+                                            kind: TyDiagnosticKind::Mismatch {
+                                                expected: ExpectedTy::Concrete(dest_ty),
+                                                found: output_ty.max_ty.clone().into(),
+                                            },
+                                            file: self.loc.file(),
+                                            expr: Some(assign_body.value),
+                                            range: self.bodies.range_for_expr(assign_body.value),
+                                            help: None,
+                                        });
                                     }
 
                                     let max_ty = output_ty.max_ty.into();
